@@ -106,8 +106,45 @@ class Conv:
             streams.setdefault(info['seq'], bytearray())
             streams[info['seq']] += info['sent']
             info['sent'] = bytearray()
+        later = None
+        if fault and len(outcomes) == len(self.hashes):
+            # after the cut connection: one more request must travel whole on a fresh connection and complete with its own, whole reply
+            hx = R.H(1, b'later/' + self.label.encode() + seedlabel.encode())
+            q = c('async_add 0 0 sign %s 0 later' % hx.hex())
+            later = ('add-refused', q.rc)
+            if q.rc == 0:
+                rid = int(q['reqid'])
+                later = ('never-returned',)
+                pushed = False
+                for _ in range(30):
+                    now += 1
+                    c('clock %d' % now)
+                    q = c('async_run 0')
+                    for info in s.tcp_order[nconn0:]:
+                        streams.setdefault(info['seq'], bytearray())
+                        streams[info['seq']] += info['sent']
+                        info['sent'] = bytearray()
+                    if q.get('handle') == '1' and q.get('tag') == 'later':
+                        later = ('resp', q.get('respid') == str(rid), q.get('sigdoc') == hx.hex()) if int(q['state']) == 3 else ('err', int(q.get('herr', 0)))
+                        break
+                    oc = [i2 for i2 in s.tcp_order[nconn0:] if i2['open']]
+                    if oc and not pushed:
+                        cur = oc[-1]
+                        buf, off = bytes(streams[cur['seq']]), 0
+                        while off + 4 <= len(buf):
+                            try:
+                                t, off2, _ = R.read_tlv(buf, off)
+                                rq = S.parse_request(buf[off:off2], 'aggr', 2)
+                            except (R.TlvError, S.BadRequest):
+                                break
+                            off = off2
+                            if rq.get('hash') == hx:
+                                c('net_push %d %s' % (cur['fd'], reply_for(random.Random('later'), rid, hx, None).hex()))
+                                pushed = True
+                later_req = (rid, hx)
         c('async_free 0')
-        return dict(outcomes=outcomes, streams={k: bytes(v) for k, v in streams.items()}, ids=ids, steps=steps, wouldblock=s.wouldblock)
+        return dict(outcomes=outcomes, streams={k: bytes(v) for k, v in streams.items()}, ids=ids, steps=steps, wouldblock=s.wouldblock, later=later,
+                    later_req=locals().get('later_req'))
 
     def run_client_fault(self, k, kind):
         """the first request is cut after k bytes by a would-block; then the peer closes ('eof') or the send timeout expires
@@ -331,9 +368,19 @@ def async_part(job, r):
             if 'error' in res:
                 cv.viol('fault:service-error', res['error'], '')
                 continue
-            r.observe(('fault', kind, nreq, off == L, off == 0))
+            r.observe(('fault', kind, nreq, off == L, off == 0, res.get('later') and res['later'][0]))
             r.count('fault_positions')
+            lt = res.get('later')
+            if lt is not None:
+                r.count('later_request_after_cut_%s' % lt[0])
+                if lt != ('resp', True, True):
+                    cv.viol('fault:%s:later-request-on-fresh-connection:%s' % (kind, lt[0]), 'connection cut at offset %d of %d of the reply stream; a request added afterwards did not complete with its own reply on the fresh connection: %s' % (off, L, lt), 'cut=%d' % off)
+            saved = cv.hashes
+            if res.get('later_req'):
+                res['ids'][nreq] = res['later_req'][0]
+                cv.hashes = list(hashes) + [res['later_req'][1]]
             cv.check_streams(res, 'fault', complete=False)
+            cv.hashes = saved
             # replies wholly before the cut must be delivered, the others end with a network class error, nothing hangs
             pos = 0
             whole = set()
@@ -452,4 +499,5 @@ def run(ctx):
     pool.run(ctx, worker, jobs, workers=16)
     c = ctx.counters
     if not ctx.violations and not ctx.known_printed:
+        ctx.require(c.get('later_request_after_cut_resp', 0) >= 200, 'requests completed on a fresh connection after a cut')
         ctx.require(c.get('chunking_variants', 0) >= 1000 and c.get('fault_positions', 0) >= 500 and c.get('blocking_fault_positions', 0) >= 500, 'chunkings and fault positions explored')
